@@ -632,7 +632,7 @@ def translate_rules(repo):
 def gen_v(params, rules, kind_classes, argn):
     lines = ["(* GENERATED by props/C14/translate.py from the PSyclone working tree — do not edit *)",
              "From Coq Require Import List ZArith Bool.", "Import ListNotations.",
-             "From PV Require Import C14.Model.", "Open Scope Z_scope.", "",
+             "From PV Require Import C14.Model.", "Local Open Scope Z_scope.", "",
              "Definition valid_child (ck : kind) (pos : Z) (xk : kind) : bool :=", "  match ck with"]
     for n in KINDS:
         lines.append("  | K%s => %s" % (n, rule_coq(rules[n], kind_classes)))
